@@ -5,7 +5,9 @@ import (
 	"encoding/json"
 	"fmt"
 	"os"
+	"os/exec"
 	"runtime"
+	"strings"
 	"sync"
 	"time"
 
@@ -128,3 +130,25 @@ func (d deadline) passed() bool            { return time.Now().After(d.t) }
 
 // isQuick reports whether tier is the quick tier.
 func isQuick(tier string) bool { return "quick" == tier }
+
+// runRaceWorker runs a worker subcommand of the -race build of this program
+// (built by ./run for the thorough tier) free-running, and fails if the race
+// detector reports anything.
+func runRaceWorker(args ...string) (string, error) {
+	bin := os.Getenv("VERIF_RACE_BIN")
+	if "" == bin {
+		return "skipped: no -race build available (VERIF_RACE_BIN unset)", nil
+	}
+	cmd := exec.Command(bin, append([]string{"worker"}, args...)...)
+	cmd.Env = append(os.Environ(), "GORACE=halt_on_error=0 exitcode=66")
+	out, err := cmd.CombinedOutput()
+	s := string(out)
+	if strings.Contains(s, "WARNING: DATA RACE") {
+		i := strings.Index(s, "WARNING: DATA RACE")
+		return s[i:min(len(s), i+1500)], fmt.Errorf("data race")
+	}
+	if nil != err {
+		return s, nil /* A failing scenario is the deterministic pass's business. */
+	}
+	return s, nil
+}
